@@ -22,6 +22,10 @@ def reduce (f : Nat) (initial : Option Val) (s : Nat) (fuel : Nat) : M Val :=
 def list (s : Nat) (fuel : Nat) : M Val := scopedIter s (do pure (.lst (← Std.collectAll s [] fuel)))
 def tuple (s : Nat) (fuel : Nat) : M Val := scopedIter s (do pure (.tup (← Std.collectAll s [] fuel)))
 
+/-- `builtins.set` / `builtins.dict` (without keyword arguments): a comprehension inside the scope -/
+def set (s : Nat) (fuel : Nat) : M Val := scopedIter s (Std.set s fuel)
+def dict (s : Nat) (fuel : Nat) : M Val := scopedIter s (Std.dict s fuel)
+
 /-- `builtins.sorted`: items (and keys) are collected inside the scope, sorted outside -/
 def sorted (fn : Option Nat) (reverse : Bool) (s : Nat) (fuel : Nat) : M Val := do
   let keyed ← scopedIter s (Std.collectKeyed fn s [] fuel)
